@@ -5,6 +5,7 @@ import RtcModel.C07Sctp
 import RtcModel.C07SctpSt
 import RtcModel.C07Media
 import RtcModel.C07Sdp
+import RtcModel.Jitter
 import RtcModel.Drv.Util
 /-! Driver for C07: one decoder model per stream; output `ok <digest>` / `err <error>` / `panic`. -/
 namespace RtcModel.Drv.C07
@@ -68,6 +69,33 @@ def parseSctpPkt (t : String) : Option SctpSt.Pkt :=
     let sent ← (tx.splitOn ",").mapM String.toNat?
     some ⟨bs, c = "1", cookies, sent⟩
   | _ => none
+
+/-- one op token of the `jitter` stream: `p,seq,ts,ssrc,marker,clock,video,id` (`-` = absent) / `o` pop / `r` reset / `d` drain -/
+def jitterOp (aged : Bool) (s : Jitter.St) (tok : String) : Option (Jitter.St × String) :=
+  let on (t : String) : Option (Option Nat) := if t = "-" then some none else t.toNat?.map some
+  match fields tok with
+  | ["p", sq, ts, ss, mk, ck, vd, id] =>
+    match on sq, ts.toNat?, on ss, ck.toNat?, id.toNat? with
+    | some sq, some ts, some ss, some ck, some id =>
+      let s' := s.push { seq := sq, ts := ts, ssrc := ss, marker := mk = "1", clock := ck, video := vd = "1", id := id }
+      some (s', "P" ++ s'.obs aged)
+    | _, _, _, _, _ => none
+  | ["o"] =>
+    let r := s.pop aged
+    some (r.1, "O" ++ (match r.2 with | some x => toString x.id | none => "-") ++ r.1.obs aged)
+  | ["r"] => some (s.reset, "R" ++ s.reset.obs aged)
+  | ["d"] =>
+    let r := s.drain (s.samples.length + 1) []
+    some (r.1, "D" ++ "+".intercalate (r.2.map toString) ++ r.1.obs aged)
+  | _ => none
+
+def jitterRun (aged : Bool) : Jitter.St → List String → List String → Option (List String)
+  | _, [], acc => some acc.reverse
+  | s, t :: rest, acc =>
+    match jitterOp aged s t with
+    | some (s', o) => jitterRun aged s' rest (o :: acc)
+    | none => none
+
 
 def handleSpecial (stream : String) (args : List String) : String :=
   match stream, args with
@@ -203,6 +231,10 @@ def handleSpecial (stream : String) (args : List String) : String :=
       showRes (Media.deliverRun { expected := e0, maxSize := ms } ops (Buf.ofList []) 0)
         (fun r => " ".intercalate (r.map nats))
     | _, _, _ => "bad-args"
+  | "jitter", cap :: mode :: ops =>
+    match cap.toNat?, jitterRun (mode = "0") (Jitter.init (cap.toNat?.getD 0)) ops [] with
+    | some _, some outs => "ok " ++ " ".intercalate outs
+    | _, _ => "bad-args"
   | "rtx", [hx] =>
     match unhex hx with
     | some bs => showRes (runS Ice.unwrapRtx bs) (fun r => match r with | none => "none" | some (o, l) => s!"{o} {l}")
